@@ -133,7 +133,7 @@ pub fn guarded<T>(fuel: u64, f: impl FnOnce() -> T) -> Guarded<T> {
 }
 
 pub fn rflags(f: Flags, no_opt: bool) -> regress::Flags {
-    regress::Flags { icase: f.i, multiline: f.m, dot_all: f.s, no_opt, unicode: f.u, unicode_sets: f.v }
+    regress::Flags { icase: f.i, multiline: f.m, dot_all: f.s, no_opt: no_opt || f.n, unicode: f.u, unicode_sets: f.v }
 }
 
 /// Compile from code points. Ok(Ok(re)) / Ok(Err(msg)) / panic / fuel.
